@@ -131,6 +131,15 @@ func (s *Service) ScheduleJob(ctx context.Context,
 			// It is possible that the job is already active, so check that first before proceeding.
 			if job.active.Load() {
 				s.log.Trace().Str("job", name).Time("scheduled", runtime).Msg("Already running; job not running")
+				// The job has been claimed by a run request at the same time as the timer fired.
+				// The claim removed the job from the jobs list and reported success, so this
+				// goroutine is the only place left where the job can run: honour the run signal.
+				<-job.runCh
+				monitorJobStartedOnSignal(class)
+				jobFunc(ctx)
+				s.log.Trace().Str("job", name).Time("scheduled", runtime).Msg("Job complete")
+				finaliseJob(job)
+				job.active.Store(false)
 				break
 			}
 			s.jobsMutex.Lock()
